@@ -293,6 +293,19 @@ func checkEncode(w *W, k lib.Kind, s, canonical string) {
 		return
 	}
 	c := decodeCase(k, s, false)
+	if Hash(s)%4 == 1 {
+		// call order (determined by the string, so a replay repeats it): a quarter of the objects are rated
+		// first and encoded afterwards - the order of a client that scores a vector and then logs it
+		w.Count("objects_scored_and_rated_before_they_are_encoded")
+		o.Score()
+		o.Severity()
+		if tv, ok, _ := o.TemporalView(); ok && !tv.IsNil() {
+			tv.Score()
+		}
+		if bv, ok, _ := o.BaseView(); ok && !bv.IsNil() {
+			bv.Score()
+		}
+	}
 	enc, eerr, p1 := o.Encode()
 	str, p2 := o.String()
 	if p1 != nil || p2 != nil {
